@@ -396,7 +396,7 @@ pub fn run_inner(tier: Tier, seed: u64) -> i32 {
         }
         Ok(())
     });
-    let n = ctx.pick(250_000, 4_000_000);
+    let n = ctx.pick(600_000, 8_000_000);
     ctx.par_random(n, 220, 20, |tape, l| {
         let (g, input, sub) = decode(tape);
         debug_assert!(wf(&g), "ill-formed: {}", render(&g));
